@@ -24,6 +24,7 @@ BadToks == {t \in {Tok(TRUE, p2, a, Sig(K1, a, p)) : a \in Algs, p \in ClaimIds,
            \cup {Tok(TRUE, p, a, Junk) : a \in Algs, p \in ClaimIds}                                         \* arbitrary signature
            \cup {Tok(TRUE, p, a, NoSig) : a \in Algs, p \in {"cA"}}                                          \* empty signature
            \cup {Tok(TRUE, p, a, Sig(K1, a, "cA")) : a \in Algs, p \in {"garbage", "nil"}}                    \* payload that is no claims map
+           \cup {Tok(TRUE, "garbage", a, Sig(k, a, "garbage")) : k \in Keys, a \in Algs}                        \* genuinely signed, but no claims map
            \cup {Tok(FALSE, "cA", a, Sig(K1, a, "cA")) : a \in Algs}                                         \* not a COSE_Sign1
 SimToks == GoodToks \cup BadToks
 IsGood(sg) == sg.kind = "good"
